@@ -550,6 +550,20 @@ _MACRO_GAP = re.compile(r"(?<=\w)(?:\s|\\\r?\n|#[^\n]*\n)+(?=!\()")
 _FDEBUG = re.compile(r"(?:\s|\\\r?\n|#[^\n]*\n)*=(?:\s|\\\r?\n|#[^\n]*\n)*(?=[}!])")
 
 
+_BANG_GAP = re.compile(r"(?m)^([ \t]*\w+)(?:[ \t]|\\\r?\n)+!(?=[ \t])")
+_BANG_LATE = re.compile(r"(?m)^([ \t]*\w+[ \t]+[^\n!#]*\w)!(?=[ \t])")
+
+
+def _repair_bang_gap(text):
+    """`cmd  ! raw text`: blanks between the first word and the macro bang removed"""
+    return _BANG_GAP.sub(r"\1!", text)
+
+
+def _repair_bang_late(text):
+    """`cmd -c! raw text`: the macro bang behind a later word removed (plain command line)"""
+    return _BANG_LATE.sub(r"\1", text)
+
+
 def _repair_bs_ws(text):
     """blanks between a backslash and the end of its line removed"""
     return _BS_WS.sub(r"\\", text)
@@ -584,15 +598,21 @@ FEATURES = [
     ("blanks-at-eol-inside-multiline-string", _repair_mlstring_ws),
     ("blanks-between-name-and-macro-paren", _repair_macro_gap),
     ("blanks-in-fstring-debug-field", _repair_fdebug),
+    ("blanks-before-subproc-macro-bang", _repair_bang_gap),
+    ("subproc-macro-bang-behind-later-word", _repair_bang_late),
 ]
+# features that only explain a tree difference (never a non-idempotence / comment loss)
+_TREE_ONLY = ("blanks-between-name-and-macro-paren", "blanks-in-fstring-debug-field", "blanks-before-subproc-macro-bang", "subproc-macro-bang-behind-later-word")
 
 
-def _by_feature(text, passes):
+def _by_feature(text, passes, tree=False):
     """Name of the first feature whose repair alone makes the clause pass; when no single repair
     does but all of them together do, the first feature that is present.  Else None."""
     present = []
     cur = text
     for name, repair in FEATURES:
+        if name in _TREE_ONLY and not tree:
+            continue
         try:
             fixed = repair(text)
             cur = repair(cur)
@@ -632,7 +652,7 @@ def _comment_passes(text):
 
 
 def _tree_key(src, out, tin, tout):
-    feat = _by_feature(src, _tree_passes)
+    feat = _by_feature(src, _tree_passes, tree=True)
     if feat:
         return f"tree:{feat}", dict(FEATURES)[feat](src)
     if tout[0] != "ok":
